@@ -32,6 +32,7 @@ SAMPLERS = dict(ANGLES, **{"rln:rlnAngleRot": angle_sampler, "rln:rlnAngleTilt":
 def rframe(cols, prefix="rln:"):
     f = Frame({c: sym(prefix + c) for c in cols}, list(cols), prefix=prefix, name="relion_df")
     f.space = Space("relion", how="root")
+    f.labels_positional = True  # RELION tables come from Starfile.read or from create_relion_df: a fresh 0..n-1 index (see the quantifier)
     return f
 
 
@@ -60,6 +61,7 @@ def imported(ctx, v, order=None, with_subset=False):
         cols = order(cols)
     it = Interp(ctx.prog, assume=assume_map({"self.pixel_size is not None": True}))
     me = me_obj(ctx.prog, None)
+    me.attrs["df"].labels_adopt = True  # the constructor starts from the empty table of Motl.__init__
     it.run(CLS + ".convert_to_motl", [rframe(cols), K(v)], {}, self_obj=me)
     df = me.attrs.get("df")
     if not isinstance(df, Frame):
@@ -272,4 +274,4 @@ def _obligations():
 
 
 def obligations():
-    return _obligations() + [effects_obligation("C03")]
+    return _obligations() + [labels_obligation("C03"), effects_obligation("C03")]
